@@ -176,6 +176,9 @@ func (jc *jcase) toCase() core.Case {
 								add("j2p.DoInto", "error-presence-differs-from-Do", "DoInto err=%v, Do err=%v\ndocument %s", e2, cerr, clip(d.text))
 								break
 							}
+							if e2 == nil && poolpoison.Aliased(buf) {
+								add("j2p.DoInto", "result-aliases-pooled-buffer", "the %d bytes DoInto left in the caller's buffer change when the pooled buffers are overwritten\ndocument %s", len(buf), clip(d.text))
+							}
 							if e2 == nil && !bytes.Equal(buf, out) {
 								add("j2p.DoInto", "output-differs-from-Do", "DoInto %x, Do %x\ndocument %s", buf, out, clip(d.text))
 								break
